@@ -1,5 +1,6 @@
 """C01 -- contracting with any tree gives the einsum value, in the declared axis order."""
 import itertools
+import sys
 
 from vlib import gen, oracle
 from vlib.core import Raw, Some, Z, coq, main, standard_proof_steps, tree_lit
@@ -84,6 +85,118 @@ Definition recipe_row n sl (bt : bool * tree) :=
   (leaves (snd bt), (inds n sl (fst bt) (snd bt), (can_dot n sl (fst bt) (snd bt),
    (tensordot_axes n sl (snd bt), (tensordot_perm n sl (fst bt) (snd bt), einsum_eq n sl (fst bt) (snd bt)))))).
 """
+
+HIST_KINDS = ("inspect", "contractor", "contract", "reconf", "forest", "sort", "sort_noreset", "slice", "unslice")
+
+
+def life_before_contraction(ctx, rng, ctg, np):
+    """'Any tree' includes a tree with a past: one that was inspected (which caches per-node recipes),
+    compiled, contracted, restructured, re-sorted, sliced and unsliced before this contraction.
+    Random histories of such steps, then the contraction under every option combination, judged by the
+    dense einsum oracle only (the static model describes a fresh tree)."""
+    for k in range(ctx.n(90, 1500)):
+        nmax = (6, 8, 10, 12)[k % 4]
+        inputs, output, size_dict = gen.rand_net(rng, nmin=nmax - 2, nmax=nmax, max_ix=nmax + 2, dmax=3)
+        if k % 3 == 0:
+            size_dict = {ix: (1 if d == 1 else 2) for ix, d in size_dict.items()}   # uniform sizes: silent errors
+        path = gen.rand_path(rng, len(inputs))
+        arrays = gen.rand_arrays(rng, inputs, size_dict)
+        present = sorted({ix for t in inputs for ix in t})
+        removed = {}
+        hist = []
+        rec = {"inputs": inputs, "output": output, "size_dict": size_dict, "path": path, "history": hist,
+               "arrays": [a.tolist() for a in arrays]}
+        try:
+            tree = ctg.ContractionTree.from_path(inputs, output, size_dict, path=path)
+            # mostly: something that caches per-node recipes, then something that changes part of the tree
+            plan = []
+            for _ in range(rng.randint(1, 2)):
+                plan.append(rng.choice(("inspect", "contractor", "contract", "slice")))
+                plan.append(rng.choice(("reconf", "forest", "sort_noreset", "sort", "slice", "unslice")))
+            if rng.random() < 0.3:
+                plan = [rng.choice(HIST_KINDS) for _ in range(rng.randint(1, 4))]
+            for kind in plan:
+                if kind == "inspect":
+                    for p_, _, _ in tree.traverse():
+                        tree.get_einsum_eq(p_)
+                        if tree.get_can_dot(p_):
+                            tree.get_tensordot_axes(p_)
+                            tree.get_tensordot_perm(p_)
+                    hist.append(["inspect"])
+                elif kind == "contractor":
+                    pe = rng.random() < 0.5
+                    sys.modules["cotengra.contract"].make_contractor(tree, prefer_einsum=pe)
+                    hist.append(["make_contractor", pe])
+                elif kind == "contract":
+                    pe = rng.random() < 0.5
+                    tree.contract(arrays, prefer_einsum=pe)
+                    hist.append(["contract", pe])
+                elif kind == "reconf":
+                    kw = dict(subtree_size=rng.randint(2, 5), maxiter=rng.choice((1, 2, 3, 12)), seed=rng.randrange(2**31),
+                              select=rng.choice(["max", "min", "random"]))
+                    tree.subtree_reconfigure_(**kw)
+                    hist.append(["subtree_reconfigure_", kw])
+                elif kind == "forest":
+                    kw = dict(num_trees=2, num_restarts=rng.randint(1, 2), subtree_maxiter=rng.randint(1, 4), subtree_size=rng.randint(2, 5),
+                              parallel=False, seed=rng.randrange(2**31))
+                    tree.subtree_reconfigure_forest_(**kw)
+                    hist.append(["subtree_reconfigure_forest_", kw])
+                elif kind in ("sort", "sort_noreset"):
+                    kw = dict(priority=rng.choice(["flops", "size", "root", "leaves"]),
+                              make_output_contig=rng.random() < 0.5, make_contracted_contig=rng.random() < 0.5,
+                              reset=(kind == "sort"))
+                    tree.sort_contraction_indices(**kw)
+                    hist.append(["sort_contraction_indices", kw])
+                elif kind == "slice":
+                    cand = [ix for ix in present if ix not in removed]
+                    if cand:
+                        ix = rng.choice(cand)
+                        v = rng.randrange(size_dict[ix]) if rng.random() < 0.25 else None
+                        if v is None:
+                            tree.remove_ind_(ix)
+                        else:
+                            tree.remove_ind_(ix, project=v)
+                        removed[ix] = v
+                        hist.append(["remove_ind_", ix, v])
+                elif kind == "unslice":
+                    if removed:
+                        ix = rng.choice(sorted(removed))
+                        tree.restore_ind_(ix)
+                        del removed[ix]
+                        hist.append(["restore_ind_", ix])
+            fixed = {ix: v for ix, v in removed.items() if v is not None}
+            nassign = oracle.prod(size_dict[ix] for ix in present)
+            if nassign <= 20000:
+                ref = oracle.dense_reference(inputs, output, size_dict, arrays, projected=fixed)
+                ctx.count("past:ref_dense")
+            else:
+                # too many index assignments to enumerate: exact int64 numpy.einsum on the (projected) operands
+                sel = [a[tuple(slice(fixed[ix], fixed[ix] + 1) if ix in fixed else slice(None) for ix in t)]
+                       for a, t in zip(arrays, inputs)]
+                ref = np.einsum(ctg.utils.inputs_output_to_eq(inputs, output), *sel, optimize="greedy").astype(object)
+                ctx.count("past:ref_numpy")
+            scores = {}
+            for order in (None, lambda nd: scores.setdefault(nd, rng.random())):
+                for pe in (False, True):
+                    impl = rng.choice(["auto", "cotengra", "autoray"])
+                    got = tree.contract(arrays, order=order, prefer_einsum=pe, implementation=impl)
+                    if not oracle.arrays_equal_exact(got, ref):
+                        ctx.fail("a tree with a past (inspected / compiled / restructured / re-sorted / sliced before this "
+                                 "contraction) contracts to something else than the dense einsum",
+                                 dict(rec, removed=sorted(removed.items()), prefer_einsum=pe, implementation=impl,
+                                      order="dfs" if order is None else "random-callable",
+                                      got=np.asarray(got).tolist(), want=ref.tolist()))
+                        raise StopIteration
+        except StopIteration:
+            pass
+        except Exception as e:
+            ctx.fail("a tree with a past raised %r" % (e,), dict(rec, removed=sorted(removed.items())))
+        for h in hist:
+            ctx.count("past:" + h[0])
+        if len({h[0] for h in hist}) >= 2:
+            ctx.count("past:mixed")
+        ctx.case(("past", tuple(inputs), output, tuple(sorted(size_dict.items())), tuple(map(tuple, path)), repr(hist)),
+                 nontrivial=len(hist) >= 2)
 
 
 def run(ctx):
@@ -307,6 +420,8 @@ def run(ctx):
                      {"chain_length": nmat, "hyper_index": hyper, "ssa_path": ssa_path, "prefer_einsum": pe,
                       "implementation": impl})
 
+    life_before_contraction(ctx, rng, ctg, np)
+
     # pre-steps: the real program lists them in dict order of tree.preprocessing; compare as sorted
     prelude = MODEL_PROG + r"""
 Definition is_pre (o : nat * (list nat * (list nat * (list nat * (list nat * (list nat * (list nat * option (list nat)))))))) := Nat.eqb (fst o) 0.
@@ -332,7 +447,10 @@ Definition is_pre (o : nat * (list nat * (list nat * (list nat * (list nat * (li
         ctx.fail("positional interpreter of the model and the implementation disagree on a result", rec, found_input=False)
     ctx.coverage["rule"] = ("random networks (2..8 tensors; hyper / repeated / scalar / disconnected / size-1 / shared-output features), "
                             "uniform random paths, optional removed indices, order in {dfs, random callable}, prefer_einsum, "
-                            "implementation in {auto, cotengra, autoray}, optional sort_contraction_indices; "
+                            "implementation in {auto, cotengra, autoray}, optional sort_contraction_indices; trees with a past "
+                            "(random histories of inspect / make_contractor / contract / subtree_reconfigure(_forest) / "
+                            "sort_contraction_indices(reset or not) / remove_ind / restore_ind, then contracted under all "
+                            "order x prefer_einsum combinations); "
                             "non-trivial = >=3 tensors with a perverse feature; distinct by full configuration")
     ctx.assumptions = ["numpy kernels (einsum, tensordot, transpose) are modelled by the positional semantics of Model/Program.v, "
                        "validated each run on integer arrays; they are not verified"]
